@@ -486,7 +486,7 @@ impl Property for C19 {
         run_case(case)
     }
     fn rule(&self) -> String {
-        "proptest-generated (seed u64, error rate and latency rate from {0, 0.5, 1, uniform} in thousandths, min/max latency 0-30 whole ms incl. equal and reversed, 1-60/200 requests with arrival gaps 0-5 ms - bursts share an instant -, inner latency 0-8 ms, ok/error). Each case runs four services: two from separately built equally seeded layers, one from a second layer() call of one layer, and one whose requests partly go through fresh clones of the service (generated mask). Oracle: metamorphic - identical per-request (decision, injected delay, resolution instant, outcome) sequences; injected error => no inner entry and the error is built for this request; otherwise inner entered exactly once with the identical request and the caller gets its own result at inner completion; rates 0 => no injection at all; error rate 1 => every call fails, inner never entered; every latency injection announced through the listener lies within [min(min,max), max(min,max)] and equals the observed delay from arrival to inner entry; without an announcement the inner call starts in the arrival instant. Non-trivial: the sequence contains an injected error, an injected latency and a pass; distinct by hash of the case".into()
+        "proptest-generated (seed u64, error rate and latency rate from {0, 0.5, 1, uniform} in thousandths, min/max latency 0-30 whole ms incl. equal and reversed, 1-60/200 requests with arrival gaps 0-5 ms - bursts share an instant -, inner latency 0-8 ms, ok/error). Each case runs four services: two from separately built equally seeded layers, one from a second layer() call of one layer, and one whose requests partly go through fresh clones of the service (generated mask). Oracle: metamorphic - identical per-request (decision, injected delay, resolution instant, outcome) sequences; injected error => no inner entry and the error is built for this request; otherwise inner entered exactly once with the identical request and the caller gets its own result at inner completion; rates 0 => no injection at all; error rate 1 => every call fails, inner never entered; every latency injection announced through the listener lies within [min(min,max), max(min,max)] and equals the observed delay from arrival to inner entry; without an announcement the inner call starts in the arrival instant.Also generated: histories that start off the millisecond grid, response futures first polled 1-40 ms after call() (latency counts from the first poll), and the first service of a layer serving traffic before the second is observed. Non-trivial: the sequence contains an injected error, an injected latency and a pass; distinct by hash of the case".into()
     }
     fn assumptions(&self) -> Vec<String> {
         vec![
